@@ -249,12 +249,13 @@ class Check:
             i = text.find('<< "MISMATCH"')
             if i >= 0:
                 diag = " ".join(text[i:i + 20000].split())[:6000]
+            deviations = sorted(set(re.findall(r'<<\s*"DEVIATION",\s*"([\w:-]+)"', text)))
             rejected = ("REJECTED" in text) or ("Postcondition" in text and "is false" in text)
             violated = res.violated
             err = res.error if (res.error and not rejected and not violated) else None
             shutil.rmtree(work, ignore_errors=True)
             return dict(path=path, accepted=(rc == 0 and not rejected and not violated and not err), rejected=rejected,
-                        violated=violated, error=err, timed_out=to, diag=diag, states=res.distinct,
+                        violated=violated, error=err, timed_out=to, diag=diag, states=res.distinct, deviations=deviations,
                         wall_s=round(time.time() - t0, 1))
 
         with ThreadPoolExecutor(max_workers=parallel) as ex:
@@ -370,7 +371,7 @@ class Check:
             self.infra.append("%s: %s" % (sig, text))
             return
         for k in self._known:
-            if k.get("status") == "known" and k.get("property") == self.prop and sig_match(k, sig):
+            if k.get("status") == "known" and self.prop in ([k.get("property")] + list(k.get("also") or [])) and sig_match(k, sig):
                 if not any(h["id"] == k.get("id") for h in self.known_hits):
                     self.known_hits.append(dict(sig=sig, text=k.get("text", text), id=k.get("id")))
                 return
